@@ -53,6 +53,7 @@ Definition wf_leafb (n : nat) (l : leaf Q) : bool :=
   | LL2 _ _ _ _ (Some gv) => Nat.eqb (length gv) n
   | LL2Sq _ (El sv) (Some _) => Nat.eqb (length sv) n
   | LCCL2Sq _ (El sv) (Some _) => Nat.eqb (length sv) n
+  | LCCL1 _ (El sv) (Some _) => Nat.eqb (length sv) n
   | LConst c => Nat.eqb (length c) n
   | _ => true
   end.
